@@ -163,6 +163,16 @@ var StdAtoms = []Atom{
 		w := t.W(1)
 		return "<figure>" + img(t) + "<figcaption>&lt;" + w + "&gt; " + t.W(3) + "</figcaption></figure>"
 	}},
+	// captions (and a caption-less figure) that end in an element whose content is not rendered
+	{"FIGch", func(t *Tok) string {
+		return "<figure>" + img(t) + "<figcaption>" + t.W(4) + "<span hidden>" + t.W(1) + "</span></figcaption></figure>"
+	}},
+	{"FIGcs", func(t *Tok) string {
+		return "<figure>" + img(t) + "<figcaption>" + t.W(3) + "<style>.x{color:red}</style></figcaption></figure>"
+	}},
+	{"FIGns", func(t *Tok) string {
+		return "<figure>" + img(t) + "<script>var z=1;</script></figure>"
+	}},
 	{"VID", func(t *Tok) string {
 		return "<video src=\"http://example.com/v/" + t.U() + ".mp4\" poster=\"http://example.com/v/" + t.U() + ".jpg\" width=\"400\" height=\"300\"></video>"
 	}},
